@@ -197,7 +197,7 @@ def main():
                             ob.update(outcome="shape", type=type(loaded).__name__)
                 elif step["ep"] == "cli":
                     argv = sys.argv
-                    sys.argv = ["chuk_mcp", "--config", case["path"], "--server", step["name"]]
+                    sys.argv = ["chuk_mcp", "--config", case["path"], "--server", step["name"]] + (["--verbose"] if step.get("verbose") else [])
                     code = "none"
                     try:
                         cli_main.main()
